@@ -140,7 +140,7 @@ def normalize_l1(events):
             out.append({'a': 'Reset', 'n': n, 'sid': e['sid'], 'conf': e['conf']})
         elif a == 'Set':
             out.append({'a': 'Set', 'n': n, 'k': e['k'], 'val': e['val'], 'rev': e['rev'], 'flag': e['flag'],
-                        'nblk': e['nblk'], 'vh': e['vh'], 'res': e['res']})
+                        'nblk': e['nblk'], 'vh': e['vh'], 'res': e['res'], 'ver': int(e.get('ver', 0) or 0)})
         elif a == 'Get':
             r = _read(e)
             r.update({'a': 'Get', 'n': n, 'k': e['k'], 'c': int(e.get('c', -1)), 'off': int(e.get('off', 0)),
@@ -157,29 +157,47 @@ def normalize_l1(events):
             out.append({'a': 'Open', 'n': n, 'removed': rm, 'meta': e.get('meta', {}), 'head': e.get('head', -1),
                         'ok': 'err' not in e})
             reopened = True
+        elif a == 'GCStart':
+            out.append({'a': 'GCStart', 'n': n, 'begin': e['begin'], 'end': e['end'], 'merge': bool(e.get('merge')),
+                        'rb': e['rb'], 're': e['re'], 'old': e.get('old') or {'_': True}, 'agesure': bool(e.get('agesure', True)),
+                        'second': False})
+        elif a == 'GCAt':
+            out.append({'a': 'GCAt', 'n': n, 'point': e['point'], 'k': e.get('k', ''), 'c': int(e.get('c', -1)),
+                        'off': int(e.get('off', -1))})
         elif a == 'GC':
+            if e.get('res') != 'ok' and 'rb' not in e:
+                out.append({'a': 'GCRefused', 'n': n, 'begin': e['begin'], 'end': e['end'], 'old': e.get('old') or {'_': True},
+                            'agesure': bool(e.get('agesure', True))})
+                continue
             frame = [{'c': int(c), 'before': v[0], 'after': v[1], 'same': bool(v[2])}
                      for c, v in sorted((e.get('frame') or {}).items(), key=lambda kv: int(kv[0]))]
-            g = {'a': 'GC', 'n': n, 'begin': e['begin'], 'end': e['end'], 'merge': bool(e.get('merge')),
-                 'res': e.get('res', 'err'), 'rb': e.get('rb', -1), 're': e.get('re', -1),
-                 'released': int(e.get('released', 0)), 'old': e.get('old', {}) or {'_': True},
-                 'agesure': bool(e.get('agesure', True)), 'frame': frame, 'created': e.get('created') or [],
-                 'head': e.get('head', -1), 'second': False}
+            # client writes between GCStart and this event (C18 speaks of passes without concurrent writes)
+            conc_writes = False
+            for x in reversed(out):
+                if x['a'] == 'GCStart':
+                    break
+                if x['a'] in ('Set', 'Incr'):
+                    conc_writes = True
+            g = {'a': 'GC', 'n': n, 'res': e.get('res', 'err'), 'rb': e.get('rb', -1), 're': e.get('re', -1),
+                 'released': int(e.get('released', 0)), 'frame': frame, 'created': e.get('created') or [],
+                 'head': e.get('head', -1), 'second': False, 'concurrent': conc_writes}
             out.append(g)
-            gced = gced or e.get('res') == 'ok'
+            gced = True
 
             def scan_ev(scan, second):
                 files = [{'c': int(c), 'recs': [{'k': x[0], 'ver': x[1], 'val': x[2], 'off': x[3], 'nblk': x[4]} for x in l]}
                          for c, l in sorted(scan.items(), key=lambda kv: int(kv[0]))]
-                return {'a': 'Scan', 'n': n, 'rb': g['rb'], 're': g['re'], 'files': files, 'second': second}
+                return {'a': 'Scan', 'n': n, 'rb': g['rb'], 're': g['re'], 'files': files, 'second': second,
+                        'concurrent': conc_writes}
             if 'scan' in e:
                 out.append(scan_ev(e['scan'], False))
             if 'reads' in e:
                 out.append({'a': 'ReadAll', 'n': n, 'reads': {k: _read(x) for k, x in e['reads'].items()},
                             'afteropen': reopened, 'aftergc': True})
             if 'released2' in e:
-                g2 = dict(g, begin=g['rb'], end=g['re'], released=int(e['released2']), second=True, frame=[], created=[])
-                out.append(g2)
+                out.append({'a': 'GCStart', 'n': n, 'begin': g['rb'], 'end': g['re'], 'merge': False, 'rb': g['rb'], 're': g['re'],
+                            'old': {'_': True}, 'agesure': True, 'second': True})
+                out.append(dict(g, released=int(e['released2']), second=True, frame=[], created=[]))
                 out.append(scan_ev(e['scan2'], True))
         elif a == 'ReadAll':
             out.append({'a': 'ReadAll', 'n': n, 'reads': {k: _read(g) for k, g in e['reads'].items()},
@@ -200,6 +218,62 @@ def normalize_l1(events):
         else:
             out.append({'a': a, 'n': n})
     return out
+
+
+def normalize_conc(events):
+    """level-1 events of a free-running scenario for Trace_Conc.tla (pure reformatting)"""
+    out = []
+    for e in events:
+        if e.get('l') != 1:
+            continue
+        a, n = e['a'], e['n']
+        if a == 'Reset':
+            out.append({'a': 'Reset', 'n': n, 'sid': e['sid'], 'keys': e['conf']['keys']})
+        elif a == 'Set':
+            out.append({'a': 'Set', 'n': n, 'k': e['k'], 'val': e['val'], 'rev': e['rev'], 'res': e['res'],
+                        'ver': int(e.get('ver', 0) or 0)})
+        elif a == 'Inv':
+            out.append({'a': 'Inv', 'n': n, 'p': e['p'], 'op': e['op'], 'k': e['k'], 'val': int(e.get('val', 0))})
+        elif a == 'Res':
+            out.append({'a': 'Res', 'n': n, 'p': e['p'], 'op': e['op'], 'k': e['k'], 'val': int(e.get('val', 0) or 0),
+                        'ver': int(e.get('ver', 0) or 0), 'ok': bool(e.get('ok')), 'res': e.get('res', '')})
+        elif a == 'FreeDone':
+            out.append({'a': 'FreeDone', 'n': n, 'reads': {k: _read(g) for k, g in e['reads'].items()}})
+        else:
+            out.append({'a': a, 'n': n})
+    return out
+
+
+def tlc_validate_conc(trace_events, rundir, timeout=1800):
+    os.makedirs(rundir, exist_ok=True)
+    with open(os.path.join(rundir, 'trace.ndjson'), 'w') as f:
+        for e in trace_events:
+            f.write(json.dumps(e) + '\n')
+    keys, procs = set(), set()
+    for e in trace_events:
+        if e['a'] == 'Reset':
+            keys.update(e['keys'])
+        if 'p' in e:
+            procs.add(e['p'])
+    q = lambda S: ', '.join('"%s"' % x for x in sorted(S))
+    cfgtext = open(os.path.join(SPEC, 'Trace_Conc.cfg')).read().replace('%KEYS%', q(keys)).replace('%PROCS%', q(procs or {'c1'}))
+    r = tlc_run('Trace_Conc', cfgtext, rundir, workers=1, timeout=timeout)
+    out = r['out']
+    res = {'bad': [], 'drift': [], 'lead': [], 'consumed': 0, 'total': len(trace_events), 'accepted': False, 'out': out,
+           'wall': r['wall'], 'states': r['distinct']}
+    m = re.findall(r'<<"VERIF-RESULT", "(.*)">>', out)
+    if m:
+        js = m[-1].encode('utf8').decode('unicode_escape') if '\\' in m[-1] else m[-1]
+        try:
+            d = json.loads(js)
+            res['bad'] = [tuple(x) for x in d.get('bad', [])]
+            res['consumed'] = d.get('consumed', 0)
+        except Exception as ex:
+            res['parse_error'] = str(ex)
+    res['accepted'] = res['consumed'] == len(trace_events) and r['rc'] == 0 and not r['error'] and 'parse_error' not in res
+    if not res['accepted']:
+        res['tlc_error'] = r['error'] or ('rc=%s' % r['rc'])
+    return res
 
 
 # ----------------------------------------------------------------------------- TLC
@@ -228,17 +302,25 @@ def tlc_run(module, cfg, rundir, workers=NCPU, timeout=1800, extra=(), java=()):
     meta = os.path.join(rundir, 'meta-%d' % os.getpid())
     cmd = ['tlc', '-workers', str(workers), '-metadir', meta, '-config', cfgname, *extra, module + '.tla']
     t0 = time.time()
-    try:
-        # many JVMs run side by side (16 shards, several checks): keep each one's GC threads few
-        jopts = ['-Djava.io.tmpdir=' + rundir, '-XX:ParallelGCThreads=%d' % (2 if workers == 1 else 4)]
-        if workers == 1:
-            jopts.append('-XX:TieredStopAtLevel=1')
-        jopts += list(java)
-        r = sh(cmd, cwd=rundir, timeout=timeout, env=dict(os.environ, JAVA_TOOL_OPTIONS=' '.join(jopts)))
-        out, rc = r.stdout, r.returncode
-    except subprocess.TimeoutExpired as ex:
-        out, rc = (ex.stdout or '') if isinstance(ex.stdout, str) else (ex.stdout or b'').decode('utf8', 'replace'), -9
-        subprocess.run(['pkill', '-f', 'tlc2.TL[C]'])
+    # many JVMs run side by side (16 shards, several checks): keep each one's GC threads few
+    jopts = ['-Djava.io.tmpdir=' + rundir, '-XX:ParallelGCThreads=%d' % (2 if workers == 1 else 4)]
+    if workers == 1:
+        jopts.append('-XX:TieredStopAtLevel=1')
+    jopts += list(java)
+    outf = os.path.join(rundir, 'tlc-%d-%d.out' % (os.getpid(), int(t0 * 1000) % 100000))
+    with open(outf, 'w') as fo:
+        p = subprocess.Popen(cmd, cwd=rundir, stdout=fo, stderr=subprocess.STDOUT, start_new_session=True,
+                             env=dict(os.environ, JAVA_TOOL_OPTIONS=' '.join(jopts)))
+        try:
+            rc = p.wait(timeout=timeout)
+        except subprocess.TimeoutExpired:
+            rc = -9
+            try:      # only THIS run's process group (other checks may be running TLC too)
+                os.killpg(os.getpgid(p.pid), 9)
+            except Exception:
+                p.kill()
+            p.wait()
+    out = open(outf, errors='replace').read()
     wall = time.time() - t0
     shutil.rmtree(meta, ignore_errors=True)
     res = {'out': out, 'rc': rc, 'wall': wall, 'states': 0, 'distinct': 0, 'depth': 0, 'violated': None,
